@@ -145,8 +145,6 @@ package util
 //@   modifies fileInt
 //@   trusted "I/O model as WriteIntToFile"
 
-
-
 //@ extern func sort.Ints(x []int)
 //@   ensures forall i, j :: 0 <= i && i < j && j < len(x) ==> x[i] <= x[j]
 //@   ensures forall i :: 0 <= i && i < len(x) ==> exists j :: 0 <= j && j < len(x) && old(x[j]) == x[i]
